@@ -10,6 +10,7 @@ CONSTANTS
   MaxFaults = 1
   MaxRestarts = 1
   MaxProbes = 0
+  MaxHolds = 1
   MaxNoops = 2
   WithSettle = TRUE
   PauseAtomic = FALSE
@@ -18,4 +19,5 @@ CONSTANTS
   PollerExits = FALSE
   SharedKept = FALSE
   JoinedStopped = FALSE
+  LateRegisterChecked = FALSE
   BarrierExits = TRUE
